@@ -314,7 +314,13 @@ func (t *tr) bls(i int, rnd *choice.Src) {
 		t.addf("spock.verify2", "%v %v", ok, err)
 	}
 	// decoding of invalid points and scalars
-	for k, b := range [][]byte{curve.G2NonSubgroup(rnd), curve.G2OffCurve(rnd), curve.G2XTooLarge(rnd), make([]byte, 96), rnd.Bytes(96)} {
+	badpks := [][]byte{curve.G2NonSubgroup(rnd), curve.G2OffCurve(rnd), curve.G2XTooLarge(rnd), make([]byte, 96), rnd.Bytes(96)}
+	if len(pks) > 0 {
+		if b, err := curve.G2PlusTorsion(pks[0].Encode(), i); err == nil {
+			badpks = append(badpks, b)
+		}
+	}
+	for k, b := range badpks {
 		_, err := crypto.DecodePublicKey(crypto.BLSBLS12381, b)
 		t.addf(fmt.Sprintf("decode.badpk.%d", k), "%v", err != nil)
 	}
